@@ -71,12 +71,10 @@ GEN2_PROFILES = ["gen2:mixed", "gen2:cascade"]
 
 def run(ck, pid, n_quick, n_thorough, profiles, want=("stream",)):
     n = n_thorough if ck.thorough else n_quick
-    profiles = list(profiles or pipe_common.PROFILES)
-    if not ck.replay_arg:
-        # one compilation in seven is a second-generation one
-        k = max(1, len(profiles) // 6)
-        profiles = profiles + (GEN2_PROFILES * k)[:k]
     outs = pipe_common.run_corpus(ck, n, profiles=profiles, want=want)
+    if not ck.replay_arg:
+        # in addition (the first-generation population above is unchanged): one seventh as many second-generation compilations
+        outs += pipe_common.run_corpus(ck, max(2, n // 7), profiles=GEN2_PROFILES, want=want, corpus_first=False)
     for o in outs:
         if o.get("gen_count", 1) > 1:
             ck.count("second_generation_compilations")
